@@ -917,3 +917,18 @@ Proof.
   - intros i H. apply max_id_ge in H. unfold counter_supply in H. lia.
   - intros i j H. unfold counter_supply in H. lia.
 Qed.
+
+(* whatever the outcome of the template loops: the output graphs hold exactly what was handed to the writer *)
+Lemma exec_construct_sent : forall (add : bool) bulk st tmpl outs ins wb q draw r st',
+  exec bulk st (SConstruct add tmpl outs ins wb q draw) = (r, st') ->
+  static_ok (SConstruct add tmpl outs ins wb q draw) = true ->
+  (forall g, In g (ins ++ outs) -> has st g = true) -> q_ok q = true ->
+  r = (if snd (produce (output_bindings tmpl) tmpl (q_rows q) draw 0) then ROk else RErr ETemplate) /\
+  forall g, In g outs -> forall t,
+    In t (getd st' g) <-> W add (fst (produce (output_bindings tmpl) tmpl (q_rows q) draw 0)) (getd st g) t.
+Proof.
+  intros add bulk st tmpl outs ins wb q draw r st' H HS Hall Hq. rewrite exec_construct_unfold in H by exact HS.
+  destruct (x_construct add bulk no_faults (mkD st []) tmpl outs ins q draw) as [r0 d] eqn:E. inversion H; subst r0 st'. clear H.
+  pose proof (x_construct_nf _ _ _ _ _ _ _ _ _ _ E) as X. cbv zeta in X.
+  assert (A : forallb (has st) (ins ++ outs) = true) by (apply forallb_forall; exact Hall). rewrite A, Hq in X. exact X.
+Qed.
